@@ -361,6 +361,14 @@ def check_surrogate_multi(case):
             res["curvatureFactor"] = tuple(z.curvatureFactor(x1, T1))
             res["getGrowthAndInterfacialComposition"] = tuple(z.getGrowthAndInterfacialComposition(x1, T1, dg1, R, g))
             res["impingementFactor"] = z.impingementFactor(x1, T1)
+            # a dilute point without matrix + precipitate equilibrium, asked after a successful one (the backend then has its documented
+            # answers: no curvature factors, no growth rate, the impingement factor of the last successful calculation)
+            xu = xq[0] * 1e-9
+            if th.curvatureFactor(xu, T1) is None:
+                for nm, fn in (("curvatureFactor_no_equilibrium", lambda: z.curvatureFactor(xu, T1)), ("getGrowth_no_equilibrium", lambda: z.getGrowthAndInterfacialComposition(xu, T1, dg1, R, g)),
+                               ("impingementFactor_no_equilibrium", lambda: z.impingementFactor(xu, T1))):
+                    v = fn()
+                    res[nm] = v if (v is None or np.isscalar(v) or isinstance(v, np.ndarray)) else tuple(v)
             res["getDrivingForce"] = z.getDrivingForce(xq, Tq)
             res["getDrivingForce1"] = z.getDrivingForce(x1, T1)
             res["getInterdiffusivity"] = z.getInterdiffusivity(xq, Tq)
@@ -369,6 +377,8 @@ def check_surrogate_multi(case):
         # untrained: exactly the backend, for every quantity
         ref = queries(th)
         got = queries(s)
+        if "impingementFactor_no_equilibrium" in ref:
+            out.label("no_equilibrium_point_queried")
         for name in ref:
             _cmp(out, "untrained_getter_differs", "untrained %s" % name, got[name], ref[name], 0, {"getter": name})
         xt = np.array(case["xtrain"], dtype=float)
@@ -405,11 +415,12 @@ def check_surrogate_multi(case):
         # untrained quantities of a partly trained surrogate still come from the backend
         got = queries(s)
         groups = {"df": ["getDrivingForce", "getDrivingForce1"], "diff": ["getInterdiffusivity", "getTracerDiffusivity"],
-                  "curv": ["curvatureFactor", "getGrowthAndInterfacialComposition", "impingementFactor"]}
+                  "curv": ["curvatureFactor", "getGrowthAndInterfacialComposition", "impingementFactor", "curvatureFactor_no_equilibrium", "getGrowth_no_equilibrium", "impingementFactor_no_equilibrium"]}
         for grp, names in groups.items():
             if grp not in trained:
                 for name in names:
-                    _cmp(out, "untrained_getter_differs", "%s (not trained; trained: %s)" % (name, "+".join(trained) or "-"), got[name], ref[name], 0, {"getter": name, "trained": trained})
+                    if name in ref:
+                        _cmp(out, "untrained_getter_differs", "%s (not trained; trained: %s)" % (name, "+".join(trained) or "-"), got[name], ref[name], 0, {"getter": name, "trained": trained})
         # trained quantities reproduce their training data at the training points
         tol = 1e-6
         if "df" in trained:
@@ -572,5 +583,5 @@ def clauses():
                     "oracle: untrained getters return exactly the backend's value for the same quantity, trained models reproduce their training outputs at the training inputs, a surrogate rebuilt from its JSON file predicts identically; non-trivial: at least one trained and one untrained quantity"),
         Clause("surrogate_multi", _surr_multi_case, check_surrogate_multi, quick=500, thorough=12000,
                rule="generator: MulticomponentSurrogate over an analytic ternary backend (solubility product, stoichiometric precipitate), trained for a random subset of {driving force, diffusivity, curvature factors} on 4-10 composition points x 1-3 temperatures, broadcast grid or point-wise lists, linear/log composition, three kernels; "
-                    "oracle: every getter of an untrained quantity (driving force, curvature factors, growth and interfacial composition, impingement factor, inter- and tracer diffusivity) returns exactly the backend's value, also after other quantities were trained; trained models reproduce every training output at the training inputs; trained growth/impingement follow from the surrogate's own curvature factors; a surrogate rebuilt from its JSON file predicts identically; non-trivial: at least one trained and one untrained quantity"),
+                    "oracle: every getter of an untrained quantity (driving force, curvature factors, growth and interfacial composition, impingement factor, inter- and tracer diffusivity) returns exactly the backend's value, also after other quantities were trained and also at a dilute point without two-phase equilibrium asked after a successful one (no curvature factors, no growth rate, the backend's last impingement factor); trained models reproduce every training output at the training inputs; trained growth/impingement follow from the surrogate's own curvature factors; a surrogate rebuilt from its JSON file predicts identically; non-trivial: at least one trained and one untrained quantity"),
     ]
